@@ -207,7 +207,7 @@ func (g *Gen) Next(t Tree) Op {
 	return op
 }
 
-var exoticIDs = []int{0, 1, 65535, 65536, 2097151, 2097152, 1<<31 - 1}
+var exoticIDs = []int{0, 1, 65535, 65536, 2097151, 2097152, 1<<31 - 1, -1, -1} // -1: "leave this id alone" (chown(2))
 var exoticTimes = []int64{1_600_000_000_123_456_789, 1_000_000_001, -1_000_000_000_000_000_000, 999_999_999, 7_000_000_000_000_000_000, 1_600_000_000_000_000_001, 4_102_444_800_000_000_000}
 var exoticPerms = []uint32{0, 0o001, 0o111, 0o400, 0o007}
 
